@@ -370,3 +370,114 @@ func init() {
 	register(&Scenario{Prop: "C05", Name: "c05/big-burst", Quick: []Bound{{0, 0}}, Thorough: []Bound{{1, 0}}, Body: c05BigBurst(c08SrvModes), MaxSteps: 2000000, BudgetQ: 20, BudgetT: 150, MinHB: 1})
 	register(&Scenario{Prop: "C05", Name: "c05/many-connections", Quick: []Bound{{0, 0}}, Thorough: []Bound{{1, 0}}, Body: c05ManyConns, MaxSteps: 2000000, BudgetQ: 20, BudgetT: 150, MinHB: 1})
 }
+
+// many connections, one of which does not read: the server's writes to that connection block
+// (its link takes one unread frame), whatever part of the server is answering it stalls, and the
+// other connections are still served.  The stuck connection sends heartbeats, a stream open and
+// calls, so that every stage that writes a response gets stuck once.
+func c05BlockedWriter(x *X) {
+	nconn := []int{3, 17, 33, 70}[x.Choose(4)]
+	kind := x.Choose(3) // what the stuck connection sent: heartbeats / stream opens / calls
+	pipelining := x.Choose(2) == 1
+	w := newWorld()
+	so := srvOpts{bufSize: 64, pipelining: pipelining}
+	srv := newServer(w, so)
+	enc := wireEncoder("")
+	stuck, sv0 := NewPipe()
+	stuck.p.capacity = 1
+	serveCodec(srv, sv0, so)
+	var conns []*rpc.Conn
+	for i := 1; i < nconn; i++ {
+		cl, sv := NewPipe()
+		serveCodec(srv, sv, so)
+		conns = append(conns, newConn(cl, "", 64, nil))
+	}
+	stuck.p.capacity = 0 // (the requests themselves are not limited: only the way back is)
+	for i := 0; i < 3; i++ {
+		switch kind {
+		case 0:
+			stuck.WriteMessage(mkReq(enc, uint64(i+1), upPing, "", nil))
+		case 1:
+			stuck.WriteMessage(mkReq(enc, uint64(i+1), upOpen, "StreamSvc.Push", nil))
+		case 2:
+			stuck.WriteMessage(mkReq(enc, uint64(i+1), nil, "Svc.Echo", mkPayload(byte(0xE0+i), 0, 9)))
+		}
+	}
+	stuck.p.capacity = 1
+	vs.Quiesce()
+	var calls []*ucall
+	for i, c := range conns {
+		u := newUcall(byte(i+1), 0, 10+i%30, formGo)
+		u.done = make(chan *rpc.Call, 1)
+		u.call = c.Go(u.method, &u.args, &u.reply, u.done)
+		calls = append(calls, u)
+	}
+	vs.Quiesce()
+	for i, c := range calls {
+		select {
+		case <-c.done:
+			c.ret, c.err = true, c.call.Error
+		default:
+		}
+		if !c.ret || c.err != nil || !eqBytes(c.reply, c.want()) {
+			x.Fail("C05/connections-not-independent", "%d connections; connection 0 does not read its responses (it sent %s): the call on connection %d has completed=%v err=%v", nconn, []string{"heartbeats", "stream opens", "calls"}[kind], i+1, c.ret, c.err)
+			break
+		}
+	}
+	x.Outcome("nconn=%d kind=%d pipe=%v", nconn, kind, pipelining)
+	stuck.p.capacity = 0
+	stuck.Close()
+	for _, c := range conns {
+		c.Close()
+	}
+	vs.Quiesce()
+}
+
+// replies that encode to nothing (an empty BYTES value) between ordinary ones, client pipelining:
+// asynchronous calls issued from one goroutine are still signalled in issue order.
+func c05EmptyReplies(x *X) {
+	cliDio := x.Choose(2) == 1
+	pattern := x.Choose(4)
+	f := newFixture(srvOpts{bufSize: 64, pipelining: true, codec: yieldBytesCodec}, cliOpts{bufSize: 64, pipelining: true, directIO: cliDio})
+	done := make(chan *rpc.Call, 8)
+	n := 5
+	var args [5][]byte
+	var replies [5][]byte
+	var calls []*rpc.Call
+	for i := 0; i < n; i++ {
+		empty := (pattern>>uint(i%2))&1 == 1 && i > 0
+		if empty {
+			args[i] = []byte{}
+		} else {
+			args[i] = mkPayload(byte(i+1), 0, 8+i)
+		}
+		calls = append(calls, f.conn.Go("Svc.Plain", &args[i], &replies[i], done))
+	}
+	vs.Quiesce()
+	var order []int
+	for len(done) > 0 {
+		c := <-done
+		for i, k := range calls {
+			if k == c {
+				order = append(order, i)
+			}
+		}
+	}
+	if len(order) != n {
+		x.Fail("C05/calls-not-completed/empty-replies", "%d of %d asynchronous calls completed", len(order), n)
+	}
+	for i := 1; i < len(order); i++ {
+		if order[i] < order[i-1] {
+			x.Fail("C05/completion-order/empty-replies", "calls issued in order 0..%d from one goroutine (pattern %d: some replies are empty) were signalled in order %v", n-1, pattern, order)
+			break
+		}
+	}
+	x.Outcome("dio=%v pattern=%d order=%v", cliDio, pattern, order)
+	f.conn.Close()
+	vs.Quiesce()
+}
+
+func init() {
+	register(&Scenario{Prop: "C05", Name: "c05/one-connection-does-not-read", Quick: []Bound{{0, 0}}, Thorough: []Bound{{1, 0}}, Body: c05BlockedWriter, MaxSteps: 2000000, BudgetQ: 20, BudgetT: 150, MinHB: 1})
+	register(&Scenario{Prop: "C05", Name: "c05/empty-replies", Quick: []Bound{{1, 0}, {2, 0}}, Thorough: []Bound{{3, 0}}, Body: c05EmptyReplies, BudgetQ: 20})
+}
